@@ -46,7 +46,13 @@ lines.append("Each sub-agent saw only the text of one property and a scratch "
              "Round 9 (S9-*) put the defect into the plumbing between the "
              "user and the algorithm (option parsing and forwarding, "
              "defaults, info fields read from the wrong scale, factories, "
-             "exit statuses). 180 changes in total, 2 of "
+             "exit statuses). Round 10 (S10-*) told the agent what the checks "
+             "cover (independent references, sizes, boundaries, "
+             "representations, state, faults, a large tier) and asked for a "
+             "defect that would STILL slip through: size thresholds between "
+             "the tiers, hash collisions, environment settings (logging "
+             "level, NumPy print options, python -O), aliasing of mutable "
+             "arguments, partial writes. 200 changes in total, 2 of "
              "them rejected as outside the input domain (marked); "
              "the 'caught by' column says when a check had to be "
              "strengthened first.\n")
